@@ -306,6 +306,32 @@ def main(tier):
                 else:
                     _attach_replay_result(o, r if r else res)
 
+    # ---- restore path: load(metadata) must make every random generator a function of the restored state
+    from pyvc import rngload
+    RESTORABLE = [('vizier._src.algorithms.designers.quasi_random', 'QuasiRandomDesigner'),
+                  ('vizier._src.algorithms.designers.eagle_strategy.eagle_strategy', 'EagleStrategyDesigner'),
+                  ('vizier._src.algorithms.designers.grid', 'GridSearchDesigner'),
+                  ('vizier._src.algorithms.designers.cmaes', 'CMAESDesigner'),
+                  ('vizier._src.algorithms.evolution.templates', 'CanonicalEvolutionDesigner')]
+    chk.assume('restore path: an RNG attribute is recognised by a generator-constructor call in __init__ (table in pyvc/rngload.py); '
+               'GridSearchDesigner / CMAESDesigner / CanonicalEvolutionDesigner own no such attribute (their RNG state is covered by C13)')
+    for dotted, cn in RESTORABLE:
+        try:
+            obs = rngload.obligations(dotted, cn)
+        except (KeyError, FileNotFoundError) as e:
+            chk.error('extract.%s.load' % cn, 'class not found in the current tree: %r' % (e,))
+            continue
+        for attr, ok, detail in obs:
+            chk.function(dotted, cn + '.load')
+            name = 'C14.%s.load.rng_restored.%s' % (cn, attr)
+            if ok:
+                chk.obligation(name, cn + '.load', 'frame', report.PROVED, 0.0, detail=detail)
+            else:
+                chk.obligation(name, cn + '.load', 'frame', report.VIOLATED, 0.0, detail=detail,
+                               model='%s.load() leaves the random generator self.%s as the constructor built it (bound in %s): on the restore path '
+                                     '(designer_factory(problem) without a seed, then load) it is seeded from ambient state although the seed is stored '
+                                     'in the study metadata' % (cn, attr, detail['bound_in']))
+
     # ---- thorough tier: the two-process replay as a bounded stand-in
     if tier == 'thorough':
         keys = sorted({e['replay'] for e in ENTRIES if e.get('replay')})
